@@ -100,10 +100,12 @@ impl DD {
         }
         let e = s + DD::ONE;
         // scale by 2^k
+        // exact powers of two built from their bit patterns (f64::powi is not guaranteed exact,
+        // and interpreters such as Miri deliberately perturb it)
         let kk = k as i32;
-        let p1 = 2f64.powi(kk / 2);
-        let p2 = 2f64.powi(kk - kk / 2);
-        e.mul_pow2(p1).mul_pow2(p2)
+        let pow2 = |e: i32| f64::from_bits(((e + 1023) as u64) << 52);
+        let (k1, k2) = (kk / 2, kk - kk / 2);
+        e.mul_pow2(pow2(k1)).mul_pow2(pow2(k2))
     }
     pub fn ln(self) -> DD {
         if self.hi <= 0.0 {
